@@ -610,7 +610,7 @@ def _search(ctx: Ctx, model, base, msg):
         ctx.fail(cons, tr.loc(), "the search does not recurse exactly once")
     else:
         c = [c for c in rec[0].calls() if A.call_name(c) == tr.name][0]
-        args = [ast.unparse(a).replace(" ", "") for a in c.args]
+        args = [A.resolve_local_chain(tr.node, a).replace(" ", "") for a in c.args]
         facts = must_facts(g, at, rec[0])
         grouped = any(f_[0].replace(" ", "") == f"isinstance({av},AvpGrouped)" and f_[3] for f_ in facts)
         if args != [f"{av}.value", f"{path_p}[1:]"] or not grouped:
@@ -671,6 +671,48 @@ def _search(ctx: Ctx, model, base, msg):
                              f"another AVP list returns - and stores - results of the message's own "
                              f"tree or of an earlier list")
                     break
+        # a remembered result describes the AVP list as it was: every public mutator of the list
+        # forgets the results, and a list that is generated per call (a message with attribute
+        # definitions) is not answered from the cache at all
+        cons_v = "Message.find_avps:cache-invalidated"
+        ctx.inst(cons_v)
+        dmc = base.classes.get("DefinedMessage")
+
+        def _resets(fn, depth=2):
+            for x in ast.walk(fn.node):
+                if isinstance(x, ast.Assign) and any(isinstance(t, ast.Attribute) and "find_cache" in t.attr
+                                                     for t in x.targets):
+                    return True
+                if depth and isinstance(x, ast.Call) and isinstance(x.func, ast.Attribute) \
+                        and A.dotted(x.func.value) == "self":
+                    for kls in (msg, dmc):
+                        h = kls.methods.get(x.func.attr) if kls else None
+                        if h is not None and h is not fn and _resets(h, depth - 1):
+                            return True
+            return False
+        for kls in (msg, dmc):
+            if kls is None:
+                continue
+            for nm, fn in list(kls.methods.items()) + [(f"{k}.setter", v) for k, v in kls.setters.items()]:
+                if nm in ("__init__", "__post_init__") or fn.is_property and ".setter" not in nm:
+                    continue
+                mut = any((isinstance(x, ast.Assign) and any(
+                    isinstance(t, ast.Attribute) and t.attr in ("_avps", "_additional_avps") and A.dotted(t.value) == "self"
+                    for t in x.targets)) or (isinstance(x, ast.Call) and isinstance(x.func, ast.Attribute)
+                                             and x.func.attr in ("append", "extend", "insert", "remove", "pop", "clear")
+                                             and A.dotted(x.func.value) in ("self._avps", "self._additional_avps"))
+                          for x in ast.walk(fn.node))
+                if mut and not _resets(fn):
+                    ctx.fail(cons_v, fn.loc(), f"{kls.name}.{nm} changes the AVP list of the message without "
+                             f"forgetting the remembered search results: find_avps keeps returning what the "
+                             f"message held when it was searched first (an appended AVP is encoded but "
+                             f"not found)")
+        bypass = any(isinstance(x, ast.Compare) and len(x.ops) == 1 and isinstance(x.ops[0], (ast.IsNot, ast.Is))
+                     and "self._avps" in ast.unparse(x) for x in ast.walk(fa.node))
+        if dmc is not None and not bypass:
+            ctx.fail(cons_v + "#generated-list", fa.loc(), "find_avps answers from the cache also when the "
+                     "message's AVP list is generated per call from its attributes (a message with "
+                     "attribute definitions): after `msg.session_id = ...` the search returns the old value")
         cache_attr = None
         if st:
             t0 = [t for t in st[0].targets if isinstance(t, ast.Subscript)][0]
